@@ -2,8 +2,8 @@
    Only ExtrOcamlBasic's directives are used (bool, option, list, prod, unit, sumbool
    mapped to OCaml's own types); N, Z, positive and nat stay extracted inductives. *)
 From Coq Require Import ExtrOcamlBasic.
-From VL Require Import Base Json Schema Wire WireSet Service Script Client.
-From VLG Require Import WireGen SetGen.
+From VL Require Import Base Json Schema Wire WireSet Service Script Client PoolExpr Pool PoolFacts Listen.
+From VLG Require Import WireGen SetGen PoolGen.
 Extraction Language OCaml.
 Separate Extraction
   Base.beq_bytes Json.parse_value Json.parse_doc Json.print Json.norm
@@ -18,4 +18,5 @@ Separate Extraction
   WireGen.schema_ErrorMethodNotImplemented WireGen.schema_ErrorMethodNotFound
   WireSet.set_ser WireSet.set_de_value WireSet.set_de_text WireSet.map_ser WireSet.map_de_value WireSet.map_de_text
   SetGen.set_visitor_consumes_value
-  Client.cstep Client.cs_init Client.new_call.
+  Client.cstep Client.cs_init Client.new_call
+  PoolFacts.src_step PoolFacts.src_init Pool.bound_ok Pool.no_strand_ok PoolFacts.src_cfg Listen.lrun Listen.linit.
